@@ -58,8 +58,13 @@ def _cases(ctx, nl):
         spec = lensgen.gen_spec(rng, allow=['plane', 'standard'], decenter=False, mirrors=(li % 4 == 0))
         if max(f[0] for f in spec['fields']) == 0:
             spec['fields'].append([rng.uniform(1, 6), 0.0, 0.0, 0.0])
+        edits = []
         try:
             o = lensgen.build(spec)
+            if li % 3 == 1:
+                seidelcorr.gather(o)            # query once, edit, query again (stale caches)
+                edits = lensgen.random_edits(o, spec, rng, kinds=['index', 'index', 'radius', 'thickness'])
+                hist['edited'] = hist.get('edited', 0) + 1
             rows, g, out = seidelcorr.gather(o)
         except Exception as e:   # noqa
             hist['errors'][type(e).__name__] = hist['errors'].get(type(e).__name__, 0) + 1
@@ -67,7 +72,7 @@ def _cases(ctx, nl):
         hist['lenses'] += 1
         hist['with_mirror'] += int(any(r['refl'] for r in rows))
         hist['catalogue_glass'] += int(any(isinstance(s['material'], list) and s['material'][0] == 'glass' for s in spec['surfaces']))
-        cases.append(dict(rows=rows, g=g, out=out, spec=spec))
+        cases.append(dict(rows=rows, g=g, out=out, spec=spec, edits=edits))
     return cases, hist
 
 
@@ -91,7 +96,7 @@ def system_checks(ctx):
             res['nontrivial'] += 1
         orc = seidelcorr.check_seidel(c['rows'], c['g'], c['out'])
         if ci in bad or orc:
-            res['disagreements'].append({'spec': c['spec'], 'model_agrees': ci not in bad, 'oracle': orc[:6],
+            res['disagreements'].append({'spec': c['spec'], 'edits_after_first_query': c['edits'], 'model_agrees': ci not in bad, 'oracle': orc[:6],
                                          'violates_property': bool(orc)})
     if cases:
         c = cases[0]
@@ -106,7 +111,7 @@ def search(ctx, broken, disagreements):
     for c in cases:
         orc = seidelcorr.check_seidel(c['rows'], c['g'], c['out'])
         if orc:
-            out.append({'spec': c['spec'], 'oracle': orc[:6], 'violates_property': True})
+            out.append({'spec': c['spec'], 'edits_after_first_query': c['edits'], 'oracle': orc[:6], 'violates_property': True})
     # report unlisted-looking ones first
     out.sort(key=lambda w: all(o.get('first_mirror') for o in w['oracle']))
     return out[:20] or None
